@@ -77,7 +77,7 @@ Theorem step_other_thread clk st e t :
   e_tid e <> t -> view t (fst (step clk st e)) = view t st.
 Proof.
   intros H. unfold step, view.
-  destruct (e_fn e), (e_percpu e).
+  destruct (e_fn e), (e_percpu e); [reflexivity | reflexivity | | | | ].
   - pose proof (gen_call_frame (per_cpu_times clk) is_nil (zipw calc_percent) (memo st) (lastp1 st) (e_tid e) (e_iv e) (e_k1 e) (e_k2 e) t) as F.
     destruct (gen_call _ _ _ _ _ _ _ _ _) as [[mm m] r]. cbn in *. rewrite F by congruence. reflexivity.
   - pose proof (gen_call_frame (cpu_times clk) never calc_percent (memo st) (last1 st) (e_tid e) (e_iv e) (e_k1 e) (e_k2 e) t) as F.
@@ -92,7 +92,9 @@ Theorem step_memo_ok clk n st e :
   memo_ok n st -> nf_of (e_k1 e) = n -> memo_ok n (fst (step clk st e)).
 Proof.
   intros Hm Hk. unfold step, memo_ok.
-  destruct (e_fn e), (e_percpu e).
+  destruct (e_fn e), (e_percpu e);
+    [right; cbn [memo fst]; f_equal; now apply ensure_nf_ok
+    |right; cbn [memo fst]; f_equal; now apply ensure_nf_ok | | | | ].
   - pose proof (gen_call_memo (per_cpu_times clk) is_nil (zipw calc_percent) (memo st) (lastp1 st) (e_tid e) (e_iv e) (e_k1 e) (e_k2 e) n Hm Hk) as F.
     destruct (gen_call _ _ _ _ _ _ _ _ _) as [[mm m] r]. exact F.
   - pose proof (gen_call_memo (cpu_times clk) never calc_percent (memo st) (last1 st) (e_tid e) (e_iv e) (e_k1 e) (e_k2 e) n Hm Hk) as F.
@@ -114,7 +116,9 @@ Proof.
   assert (En : ensure_nf (memo st) (e_k1 e) = ensure_nf (memo st') (e_k1 e))
     by (rewrite !(ensure_nf_ok n) by assumption; reflexivity).
   unfold step, view.
-  destruct (e_fn e), (e_percpu e).
+  destruct (e_fn e), (e_percpu e);
+    [cbn [fst snd last1 lastp1 last2 lastp2]; rewrite En, H1, Hp1, H2, Hp2; auto
+    |cbn [fst snd last1 lastp1 last2 lastp2]; rewrite En, H1, Hp1, H2, Hp2; auto | | | | ].
   - destruct (gen_call_own (per_cpu_times clk) is_nil (zipw calc_percent) (memo st) (memo st') (lastp1 st) (lastp1 st') (e_tid e) (e_iv e) (e_k1 e) (e_k2 e) Hp1 En) as [A B].
     destruct (gen_call _ _ _ (memo st) _ _ _ _ _) as [[mm m] r].
     destruct (gen_call _ _ _ (memo st') _ _ _ _ _) as [[mm' m'] r']. cbn in *. subst r'. rewrite B, H1, H2, Hp2. auto.
@@ -160,17 +164,18 @@ Example per_thread_frame_nonvacuous :
                      ks_cpus := []; ks_tail := [] |} in
   let ev t f := {| e_tid := t; e_fn := f; e_percpu := false; e_iv := INone; e_k1 := k; e_k2 := k |} in
   memo_ok 10 sys_init
-  /\ (forall o, In o [ev 2%Z FPercent; ev 2%Z FTimesPercent] -> e_tid o <> e_tid (ev 1%Z FPercent) /\ nf_of (e_k1 o) = 10%nat)
+  /\ (forall o, In o [ev 2%Z FPercent; ev 2%Z FTimesPercent; ev 2%Z FTimes] -> e_tid o <> e_tid (ev 1%Z FPercent) /\ nf_of (e_k1 o) = 10%nat)
   /\ nf_of (e_k1 (ev 1%Z FPercent)) = 10%nat.
 Proof.
   cbv zeta. split; [now left|]. split; [|vm_compute; reflexivity].
-  intros o [<-|[<-|[]]]; split; try (vm_compute; reflexivity); cbn; lia.
+  intros o [<-|[<-|[<-|[]]]]; split; try (vm_compute; reflexivity); cbn; lia.
 Qed.
 
 (* negative interval: ValueError and nothing changes *)
-Theorem step_negative clk st e : e_iv e = INeg -> step clk st e = (st, Exc ValueError).
+Theorem step_negative clk st e :
+  e_fn e <> FTimes -> e_iv e = INeg -> step clk st e = (st, Exc ValueError).
 Proof.
-  intros H. unfold step, gen_call. rewrite H. destruct st. destruct (e_fn e), (e_percpu e); reflexivity.
+  intros Hf H. unfold step, gen_call. rewrite H. destruct st. destruct (e_fn e), (e_percpu e); try congruence; reflexivity.
 Qed.
 
 (* ---------------------------------------------------------------- Process.cpu_percent *)
